@@ -105,7 +105,7 @@ def stamp_rows(case: Dict[str, Any]) -> Dict[str, List[List[Any]]]:
     grids: Dict[str, List[List[Any]]] = {}
     for asset, spec in case["assets"].items():
         tables = [(t, rows) for t, rows in spec["tables"]]
-        grid, _ = files.build_sheet_grid(asset, tables, layout, blank_between=spec.get("blank", 1), first_blank=spec.get("first_blank", 0))
+        grid, _ = files.build_sheet_grid(asset, tables, layout, blank_between=spec.get("blank", 1), first_blank=spec.get("first_blank", 0), trailing_blank=spec.get("trailing_blank", 0))
         grids[asset] = grid
     return grids
 
@@ -193,7 +193,7 @@ def file_case(
                 rows = list(draw(st.permutations(rows)))
             if rows or table == "in" or draw(st.booleans()):
                 tables.append((table, rows))
-        assets[name] = {"tables": [[t, rows] for t, rows in tables], "blank": draw(st.integers(0, 2)), "first_blank": draw(st.integers(0, 1))}
+        assets[name] = {"tables": [[t, rows] for t, rows in tables], "blank": draw(st.integers(0, 2)), "first_blank": draw(st.integers(0, 1)), "trailing_blank": draw(st.sampled_from([0, 0, 1, 3]))}
     case: Dict[str, Any] = {
         "country": country,
         "exchanges": exchanges,
